@@ -441,6 +441,10 @@ func (sigPoK *SigPoK) fromBytes(c *math.Curve, bytes []byte) error {
 		return fmt.Errorf("malformed proof of signature knowledge: %v", err)
 	}
 
+	if len(rspok.Data) != 5 {
+		return fmt.Errorf("malformed proof of signature knowledge: %d elements instead of 5", len(rspok.Data))
+	}
+
 	sigPoK.ψ = PoKofSignaturePoCorrectForm{}
 	if err := sigPoK.ψ.fromBytes(c, rspok.Data[0]); err != nil {
 		return err
@@ -825,6 +829,9 @@ func (ψ *PoKofSignaturePoCorrectForm) Bytes() []byte {
 }
 
 func (ψ *PoKofSignaturePoCorrectForm) Verify(c *math.Curve, ν, hε *math.G1, g2, X, κ *math.G2, Y []*math.G2) error {
+	if len(ψ.x) > len(Y) {
+		return fmt.Errorf("proof has %d responses but the public key has only %d components", len(ψ.x), len(Y))
+	}
 
 	digest := randomOracleForPoKofSignature(ψ.Γ, ψ.Φ, ν, hε, g2, X, κ, Y)
 	e := c.HashToZr(digest)
